@@ -760,3 +760,23 @@ Theorem C06_staging_valid_forest_7 n es off :
 Proof. exact (staging_valid_forest_7 n es off). Qed.
 Print Assumptions C06_staging_valid_sorted_6.
 Print Assumptions C06_staging_valid_forest_7.
+
+(* where a round of the staging loop stops, for every DAG of any size: one `for node in _nodes:` pass started from
+   (included, trained) = (incl0, trn0) defers a node only behind a node it did not include -- a node all of whose parents are
+   included at the end of the pass has itself been included or trained in that pass; conversely (C06_staging_pass_complete)
+   the pass reaches every node all of whose strict ancestors are forward nodes or readouts trained before the pass.  The
+   stage boundaries are therefore exactly the readouts trained in the round. *)
+Theorem C06_staging_pass_no_defer (g : graph) (incl0 trn0 sub incl trn : list nat) :
+  wf_dagb g = true ->
+  fold_left (scan_step g) (todo_of g incl0) ([], incl0, trn0) = (sub, incl, trn) ->
+  forall v, In v (g_nodes g) -> (forall p, In p (FitSem.parents g v) -> In p incl) -> In v incl \/ In v trn.
+Proof. exact (fun H => scan_no_defer g H incl0 trn0 sub incl trn). Qed.
+Theorem C06_staging_pass_complete (g : graph) (incl0 trn0 sub incl trn : list nat) :
+  wf_dagb g = true ->
+  fold_left (scan_step g) (todo_of g incl0) ([], incl0, trn0) = (sub, incl, trn) ->
+  forall v, In v (g_nodes g) -> ~ In v incl0 ->
+    (forall a, anc g a v -> offline g a = false \/ In a trn0) ->
+    ((offline g v = false \/ In v trn0) -> In v incl) /\ (offline g v = true -> In v trn).
+Proof. exact (fun H => scan_complete g H incl0 trn0 sub incl trn). Qed.
+Print Assumptions C06_staging_pass_no_defer.
+Print Assumptions C06_staging_pass_complete.
